@@ -699,6 +699,35 @@ def r18_9(ctx: Ctx):
     return obs
 
 
+def r18_11(ctx: Ctx):
+    """R18.11 progress under hibernation: whenever some deme is active and the global stop condition is false, a metaepoch
+    evaluates. In `DemeTree.run_metaepoch` every evaluating statement stands behind the hibernation skip; unless the method (or
+    run_step) has a provision for the state "every active deme sleeps" - a fallback that steps or wakes a deme when nothing was
+    stepped - that state, which only a sprout can leave and which the filters can make permanent, passes metaepochs with no
+    evaluation."""
+    f = ctx.prog.own_method("DemeTree", "run_metaepoch")
+    cfg = ctx.cfg(f)
+    step = ctx.prog.cls("AbstractDeme").methods["run_metaepoch"]
+    step_nodes = [n for n in cfg.nodes if n.ast is not None and n.kind != "forhead" and calls_method(n.ast, ctx, f, step)]
+    if not step_nodes:
+        raise AnalysisError("DemeTree.run_metaepoch no longer steps demes")
+    flag_conds = [n for n in cfg.nodes if n.kind == "cond" and n.ast is not None and _mentions_flag(n.ast)]
+    obs = []
+    if not flag_conds:
+        obs.append(ctx.ob("R18.11", f, f.node, status=INCONCLUSIVE if any(isinstance(x, ast.Attribute) and x.attr == "_hibernating" for x in body_walk(f.node)) else OK, detail="run_metaepoch does not test the hibernation flag in a condition" , construct="progress"))
+        return obs
+    # a provision: a store to `_hibernating` / a second stepping site / a raise in run_metaepoch or run_step that is NOT the skip itself
+    rs = ctx.prog.own_method("DemeTree", "run_step")
+    wakes = [x for g in (f, rs) for x in body_walk(g.node) if isinstance(x, (ast.Assign, ast.AugAssign)) and any(isinstance(t, ast.Attribute) and t.attr == "_hibernating" for t in (x.targets if isinstance(x, ast.Assign) else [x.target]))]
+    guarded_all = all(any(cfg.can_reach(c, n) for c in flag_conds) for n in step_nodes)
+    unguarded = [n for n in step_nodes if not any(cfg.can_reach(c, n) for c in flag_conds)]
+    if wakes or unguarded or len(step_nodes) > 1:
+        obs.append(ctx.ob("R18.11", f, (wakes[0] if wakes else (unguarded or step_nodes)[0].stmt), status=INCONCLUSIVE, detail="run_metaepoch / run_step contain a further stepping site or a write of the hibernation flag: whether it covers the state in which every active deme sleeps is not followed", construct="progress"))
+        return obs
+    obs.append(ctx.ob("R18.11", f, flag_conds[0].stmt, status=VIOLATION if guarded_all else INCONCLUSIVE, detail="every evaluating statement of DemeTree.run_metaepoch stands behind the hibernation skip and nothing steps or wakes a deme when all active demes sleep: a tree whose only active demes hibernate (root asleep after a round that took no sprout from it, all children stopped, filters rejecting the same candidates again) passes metaepoch after metaepoch without a single evaluation while the global stop condition stays false - run() never returns under an evaluation-limit condition", construct="progress"))
+    return obs
+
+
 RULES = [
     ("R18.1", r18_1, 1),
     ("R18.2", r18_2, 2),
@@ -710,4 +739,5 @@ RULES = [
     ("R18.8", r18_8, 1),
     ("R18.9", r18_9, 1),
     ("R18.10", r18_10, 1),
+    ("R18.11", r18_11, 1),
 ]
